@@ -86,6 +86,22 @@ class Iv:
             ty = t[2]
             if ty_range(ty) is None:
                 return a
+            if not fits(a, ty):
+                # two's-complement reinterpretation is exact when the whole interval lies in one 2^w window
+                w = WIDTH[ty]
+                if (a[0] >> w) == (a[1] >> w):
+                    lo, hi = a[0] & ((1 << w) - 1), a[1] & ((1 << w) - 1)
+                    if ssa.is_signed(ty):
+                        if (lo >> (w - 1)) == (hi >> (w - 1)):
+                            if lo >> (w - 1):
+                                lo, hi = lo - (1 << w), hi - (1 << w)
+                            if not self.ops_exempt(t):
+                                self.wraps.append(("cast", t, a, ty))
+                            return (lo, hi)
+                    else:
+                        if not self.ops_exempt(t):
+                            self.wraps.append(("cast", t, a, ty))
+                        return (lo, hi)
             return self._fit("cast", t, a, ty)
         if k == "ite":
             a, b = self.iv(t[2]), self.iv(t[3])
@@ -108,9 +124,25 @@ class Iv:
                     return (-a[1] - 1, -a[0] - 1)
         if k == "bin":
             op, ty = t[1], t[4]
-            if op in ("Eq", "Ne", "Lt", "Le", "Gt", "Ge"):
-                return (0, 1)
             a, b = self.iv(t[2]), self.iv(t[3])
+            if op in ("Eq", "Ne", "Lt", "Le", "Gt", "Ge"):
+                r = None
+                if op in ("Eq", "Ne"):
+                    if a[1] < b[0] or b[1] < a[0]:
+                        r = 0
+                    elif a[0] == a[1] == b[0] == b[1]:
+                        r = 1
+                    if r is not None and op == "Ne":
+                        r = 1 - r
+                elif op in ("Lt", "Ge"):
+                    r = 1 if a[1] < b[0] else 0 if a[0] >= b[1] else None
+                    if r is not None and op == "Ge":
+                        r = 1 - r
+                else:
+                    r = 1 if a[0] > b[1] else 0 if a[1] <= b[0] else None
+                    if r is not None and op == "Le":
+                        r = 1 - r
+                return (r, r) if r is not None else (0, 1)
             if op in ("Add", "AddUnchecked"):
                 return self._fit("Add", t, (a[0] + b[0], a[1] + b[1]), ty)
             if op in ("Sub", "SubUnchecked"):
@@ -149,8 +181,13 @@ class Iv:
                 if b[0] >= 0:
                     return (0, b[1])
             if op in ("BitOr", "BitXor") and a[0] >= 0 and b[0] >= 0:
+                if a[0] == a[1] and b[0] == b[1]:
+                    v = (a[0] | b[0]) if op == "BitOr" else (a[0] ^ b[0])
+                    return (v, v)
                 hi = (1 << max(a[1].bit_length(), b[1].bit_length())) - 1
-                return ((max(a[0], b[0]) if op == "BitOr" else 0), hi)
+                if op == "BitXor":
+                    return ((1 if (a[1] < b[0] or b[1] < a[0]) else 0), hi)     # different values differ in some bit
+                return (max(a[0], b[0]), hi)
             if op in ("Div",) and b[0] > 0 and a[0] >= 0:
                 return (a[0] // b[1], a[1] // b[0])
             if op in ("Rem",) and b[0] > 0 and a[0] >= 0:
